@@ -267,6 +267,9 @@ func (t *TyGen) GenValue(ty reflect.Type, depth int) reflect.Value {
 				c.Mul(c, new(big.Int).Exp(big.NewInt(10), big.NewInt(int64(1+t.r.Intn(4))), nil))
 			}
 			d = apd.NewWithBigInt(c, int32(t.r.Intn(20)-10))
+			if t.r.P(1, 3) {
+				d.Exponent = 0 // an integer beyond 64 bits: its CTE text is an integer literal
+			}
 			d.Negative = t.r.P(1, 2)
 		}
 		v.Set(reflect.ValueOf(*d))
